@@ -2,8 +2,8 @@ package main
 
 import (
 	"go/token"
-	"go/types"
 	"golang.org/x/tools/go/ssa"
+	"verif/internal/ssau"
 
 	"verif/internal/pt"
 	"verif/internal/roles"
@@ -61,56 +61,36 @@ func rootModel(rl *roles.Roles) *pt.Model {
 			return names[f]
 		},
 	}
-	// small private predicates over scalars (sameLen(a, b, c int) bool and the like) are interpreted in place with all
-	// their paths, so that a guard moved into such a helper keeps its atoms
+	// unexported top-level helpers of the root package that are not role functions are interpreted in place with all their
+	// paths (shared memory, shared hash objects, real return values): a core function split into helper steps, a guard
+	// moved into a predicate, a wrapper around a role function all keep their atoms and terms
+	recursive := func(f *ssa.Function) bool {
+		for _, b := range f.Blocks {
+			for _, in := range b.Instrs {
+				if c, ok := in.(*ssa.Call); ok && c.Common().StaticCallee() == f {
+					return true
+				}
+			}
+		}
+		return false
+	}
 	m.InlineAll = func(f *ssa.Function) bool {
-		if f == nil || names[f] != "" || f.Parent() != nil || f.Signature.Recv() != nil || token.IsExported(f.Name()) || len(f.Blocks) == 0 || len(f.Blocks) > 12 {
+		if f == nil || names[f] != "" || f.Parent() != nil || f.Signature.Recv() != nil || token.IsExported(f.Name()) || len(f.Blocks) == 0 || len(f.Blocks) > 80 {
 			return false
 		}
 		if rl.VerifyBatch == nil || f.Pkg != rl.VerifyBatch.Pkg {
 			return false
 		}
-		basic := func(t types.Type) bool {
-			_, ok := t.Underlying().(*types.Basic)
-			return ok
-		}
-		ps, rs := f.Signature.Params(), f.Signature.Results()
-		if rs.Len() > 1 || ps.Len() == 0 {
-			return false
-		}
-		allBasic := true
-		for i := 0; i < ps.Len(); i++ {
-			if !basic(ps.At(i).Type()) {
-				allBasic = false
-			}
-		}
-		for i := 0; i < rs.Len(); i++ {
-			if !basic(rs.At(i).Type()) {
-				allBasic = false
-			}
-		}
-		// no loops; scalar predicates call nothing, guard wrappers (no result) call role functions only
-		calls := 0
-		for _, b := range f.Blocks {
-			for _, s := range b.Succs {
-				if s.Index <= b.Index {
+		// the multi-scalar family has data-dependent loops and is analysed by its own rules
+		if rl.Msm != nil {
+			mod, _, _ := ssau.Reachable(rl.Msm)
+			for _, g := range mod {
+				if g == f {
 					return false
 				}
 			}
-			for _, in := range b.Instrs {
-				if c, isCall := in.(*ssa.Call); isCall {
-					cal := c.Common().StaticCallee()
-					if cal == nil || names[cal] == "" {
-						return false
-					}
-					calls++
-				}
-			}
 		}
-		if allBasic && calls == 0 {
-			return true
-		}
-		return rs.Len() == 0 && calls == 1 && len(f.Blocks) <= 4
+		return !recursive(f)
 	}
 	// role functions of the root package are pure with respect to their arguments (engine M checks that)
 	for f := range names {
